@@ -49,7 +49,7 @@ package memory
 //@ ensures [wf] result != nil && wf(result) && !held(result.mu)
 
 //@ func (*memoryStore).CheckAndSaveNonce
-//@ property C05 C10 C12
+//@ property C05 C06 C10 C12
 //@ implements store.NonceStore.CheckAndSaveNonce
 //@ requires wf(s) && !held(s.mu)
 //@ ensures [wf] wf(s) && !held(s.mu)
